@@ -85,7 +85,7 @@ Proof. exact flat_hex_exact. Qed.
    or used parts of cut branches, of different lengths.) *)
 Theorem C02_fixed_part_glue :
   forall md mem, m_nocase md = false ->
-  forall A R B lits L, fixed_len md mem R L -> lits_exact md mem R lits L -> (forall l, In l lits -> nlen l = L) ->
+  forall A R B lits L, 0 < L -> fixed_len md mem R L -> lits_exact md mem R lits L -> (forall l, In l lits -> nlen l = L) ->
     DecompGlue md mem (HConcat (A ++ R ++ B)) lits (pre_of A R) (post_of R B).
 Proof. exact fixed_glue. Qed.
 
